@@ -487,13 +487,13 @@ static void run_token(const char* t) {
   if (t[0] == 'N') { g_nofd = atoi(t + 1); return; }
   if (t[0] == 'D') {            /* D<fd>: the caller replaces descriptor fd by a UDP socket of its own */
     int fd = atoi(t + 1), sk = __real_socket(AF_INET, SOCK_DGRAM, 0);
-    close(fd); if (fd < MAXFD) tab[fd] = ST_NONE; OUT("{ }uf:%d=0 ", fd);
+    close(fd); if (fd < MAXFD) tab[fd] = ST_NONE; OUT("{ c%d }uf:%d=0 ", fd, fd);
     if (sk >= 0 && sk != fd) { __real_dup2(sk, fd); close(sk); }
     if (fd < MAXFD) tab[fd] = ST_USER;
     OUT("{ }ua:%d:0=0 ", fd);
     return;
   }
-  if (t[0] == 'Z') { int fd = atoi(t + 1); close(fd); if (fd < MAXFD) tab[fd] = ST_NONE; OUT("{ }uf:%d=0 ", fd); return; }
+  if (t[0] == 'Z') { int fd = atoi(t + 1); close(fd); if (fd < MAXFD) tab[fd] = ST_NONE; OUT("{ c%d }uf:%d=0 ", fd, fd); return; }
 
   if (!strcmp(t, "Li")) {
     int nofd = g_nofd;
